@@ -55,6 +55,30 @@ pub struct World {
     pub subjects_created: u64,
     pub statements: u64,
     pub queries: u64,
+    /// every KQL read of this World is bound to this coordinate
+    pub coord: Coord,
+}
+
+/// The cognitive-time coordinate a read is bound to. Nothing the harness
+/// writes after taking a snapshot touches the subjects recorded before it, so
+/// the belief about them is the same at all three.
+#[derive(Clone, Debug, PartialEq)]
+pub enum Coord {
+    /// the current state (no `AS OF`, no token)
+    Now,
+    /// `AS OF SEQ n` in the query text
+    AsOfSeq(u64),
+    /// `read.snapshot_token` in the request envelope
+    Token(String),
+}
+impl Coord {
+    pub fn label(&self) -> &'static str {
+        match self {
+            Coord::Now => "now",
+            Coord::AsOfSeq(_) => "as-of-seq",
+            Coord::Token(_) => "snapshot-token",
+        }
+    }
 }
 
 /// What the harness knows about one recorded case.
@@ -121,6 +145,7 @@ impl World {
                 subjects_created: 0,
                 statements: 0,
                 queries: 0,
+                coord: Coord::Now,
             };
             let mut cmd = String::from("MUTATE {\n");
             for i in 0..N_ACTORS {
@@ -155,11 +180,25 @@ impl World {
     }
 
     pub async fn exec(&self, command: &str, params: Map<String, Json>) -> Response {
-        let request: Request = serde_json::from_value(json!({
+        self.exec_bound(command, params, None).await
+    }
+
+    /// `token`: bind the request to a snapshot through the envelope (`read.snapshot_token`).
+    pub async fn exec_bound(
+        &self,
+        command: &str,
+        params: Map<String, Json>,
+        token: Option<&str>,
+    ) -> Response {
+        let mut envelope = json!({
             "kip": "2.0",
             "operations": [{"command": command, "parameters": params}]
-        }))
-        .unwrap_or_else(|e| machinery(&format!("request: {e}")));
+        });
+        if let Some(token) = token {
+            envelope["read"] = json!({"snapshot_token": token});
+        }
+        let request: Request = serde_json::from_value(envelope)
+            .unwrap_or_else(|e| machinery(&format!("request: {e}")));
         let parsed = request.operations[0].parse().unwrap_or_else(|e| {
             machinery(&format!(
                 "harness statement does not parse: {command}\n{e:?}"
@@ -330,13 +369,48 @@ impl World {
         (batch, recs)
     }
 
+    /// `SNAPSHOT`: the current Space sequence and the token that binds later reads to it.
+    pub fn snapshot(&mut self) -> (u64, String) {
+        self.queries += 1;
+        let response = block_on(self.exec("SNAPSHOT", Map::new()));
+        if response.status != TopLevelStatus::Succeeded {
+            machinery(&format!("SNAPSHOT refused: {:?}", response.error));
+        }
+        let result = response.first_result().cloned().unwrap_or(Json::Null);
+        match (
+            result["snapshot_seq"].as_u64(),
+            result["snapshot_token"].as_str(),
+        ) {
+            (Some(seq), Some(token)) => (seq, token.to_string()),
+            _ => machinery(&format!("SNAPSHOT answer without seq/token: {result}")),
+        }
+    }
+
+    /// A later write about nothing recorded so far, so that earlier snapshots are genuinely past.
+    pub fn touch(&mut self) {
+        let cmd = "CREATE CONCEPT ?later { TYPE \"Val\" NAME \"later\" }";
+        block_on(self.mutate(cmd, Map::new()));
+    }
+
     fn read(
         &mut self,
         command: &str,
         params: Map<String, Json>,
     ) -> Result<(Vec<Json>, Json), String> {
         self.queries += 1;
-        let response = block_on(self.exec(command, params));
+        // every query text of this harness has exactly one ` FOR TIME`; `AS OF` goes right before it
+        let (command, token) = match &self.coord {
+            Coord::Now => (command.to_string(), None),
+            Coord::AsOfSeq(seq) => (
+                command.replacen(" FOR TIME", &format!(" AS OF SEQ {seq} FOR TIME"), 1),
+                None,
+            ),
+            Coord::Token(token) => (command.to_string(), Some(token.clone())),
+        };
+        if self.coord != Coord::Now && !command.contains(" FOR TIME") {
+            machinery("query without FOR TIME cannot be bound to a coordinate");
+        }
+        let response = block_on(self.exec_bound(&command, params, token.as_deref()));
         if response.status != TopLevelStatus::Succeeded {
             return Err(format!("{:?}", response.error));
         }
